@@ -316,6 +316,46 @@ theorem root_at_limits (o : Interp) (xl xh A B yl yh : ℚ) (m : Int)
     (¬ |yl| < o.tol → ¬ |yh| < o.tol → 0 < yl * yh → root o xl xh m = .error .valueError) :=
   root_entry m hlim hyl hyh
 
+/-- Which exception `root` raises: on a constructed object, for limits whose interval meets the table, `root` returns
+    an abscissa or raises ValueError ("limits equal", "no root", "too many iterations") — never ZeroDivisionError
+    (the slopes it divides by are ≥ 1e-3, the false-position denominator has opposite-sign terms), never an
+    out-of-table evaluation, never an exhausted loop. -/
+theorem root_returns_or_valueError (xs ys : List ℚ) (o : Interp) (xl xh : ℚ) (m : Int)
+    (hset : GenQ.Interpolation.set TOL [.list xs, .list ys] = .ok o)
+    (hnd : ¬ (xl = 0 ∧ xh = 0))
+    (hmeet : max (min xl xh) (xfirst o) ≤ min (max xl xh) (xlast o)) :
+    (∃ v, root o xl xh m = .ok v) ∨ root o xl xh m = .error .valueError := by
+  obtain ⟨wf, htol, _, _⟩ := set_two_lists_ok TOL_pos TOL_le_one hset
+  have hx : o.x ≠ [] := by intro e; have := wf.two; rw [e] at this; simp at this
+  by_cases hc : |xl - xh| < o.tol
+  · right
+    unfold root
+    rw [root_limits_equal hx hnd hc]
+    rfl
+  · cases hlim : root_limits o xl xh with
+    | error e =>
+      -- the only refusal of `root_limits` on a non-empty table is the one excluded by `hc`
+      exfalso
+      unfold root_limits at hlim
+      cases hxs : o.x with
+      | nil => exact hx hxs
+      | cons x0 xr =>
+        rw [hxs] at hlim
+        simp only at hlim
+        have c : (peq xl 0 && peq xh 0) = false := by
+          simp only [peq, Bool.and_eq_false_iff, decide_eq_false_iff_not]
+          by_cases hxl : xl = 0
+          · right; exact fun e => hnd ⟨hxl, e⟩
+          · left; exact hxl
+        rw [c] at hlim
+        simp only [Bool.false_eq_true, if_false, plt, pabs_eq, hc, decide_false] at hlim
+        cases hlim
+    | ok p =>
+      obtain ⟨A, B⟩ := p
+      obtain ⟨hA, hB⟩ := (root_limits_spec wf hlim).2 hnd
+      exact root_total_core wf (by rw [htol]; exact TOL_pos) m hlim (by rw [hA, hB]; exact hmeet)
+        (by rw [hA]; exact le_max_right _ _) (by rw [hB]; exact min_le_right _ _)
+
 /-- Termination of the iteration: the loop of `root` (any object, any start state with `num_iter = 0`) ends within
     `max_iter + 1` passes — by its exit test `abs(y) <= tol` or by ValueError('Too many iterations'); the model's
     fuel is never exhausted. -/
